@@ -3,8 +3,8 @@ import PacketVerif.Drv.Dhcp4Srv
 namespace PV.Drv.Dhcp4File
 open PV PV.Model.Dhcp4Srv PV.Model.Dhcp4File PV.Drv.Dhcp4Srv
 
-/-! `dhcp.load <cfg>:<mode> <capturedMacs> <hexfile> <hexorig> @ <home> <netfilter> <record>`
-    (the tokens before `@` are for the harness; the record is what yaml.Unmarshal produced)
+/-! `dhcp.load <cfg>:<mode> <capturedMacs> <hexfile> <hexorig> @ <home> <netfilter> <captured> <records, head, hash>`
+    (the tokens before `@` are for the harness; the records are what yaml.Unmarshal produced, see `run`)
     → `ok <net1> <net2> <leases sorted by client id>` | `err` | `panic`. -/
 
 def parseFAddr (s : String) : Option FAddr :=
@@ -62,22 +62,35 @@ def showBuilt (b : Built) : String :=
   let ls := (b.table.map showLease).mergeSort (fun a b => decide (a ≤ b))
   s!"ok {showLSub b.net1} {showLSub b.net2} {showList ls ";"}"
 
+/-- `@ <home> <netfilter> <captured> <record of the whole file> <record of the file after byte 75> <first 75 bytes, hex>
+      <sha256 of the bytes after byte 75, hex>`: the model decides with `openFile` (hash function := the given value
+    for the only argument `openFile` applies it to) which record is loaded, or that the file is damaged -/
 def run (args : List String) : String :=
   match args.dropWhile (· != "@") with
-  | "@" :: home :: nf :: capt :: rec :: [] =>
-    match parseExpected home, parseExpected nf, (listOf capt ";").mapM fromHex, parseRecord rec with
-    | some home, some nf, some capt, some rec =>
-      match construct home nf (fun m => capt.contains m) rec with
-      | .ok b => showBuilt b
-      | .err _ => "err"
-      | .panic => "panic"
-      | .hang => "hang"
-    | _, _, _, _ => "bad-load"
+  | "@" :: home :: nf :: capt :: recWhole :: recBody :: head :: hash :: [] =>
+    match parseExpected home, parseExpected nf, (listOf capt ";").mapM fromHex, parseRecord recWhole, parseRecord recBody,
+          fromHex head, fromHex hash with
+    | some home, some nf, some capt, some recWhole, some recBody, some head, some hash =>
+      if hlen : hash.length = 32 then
+        let h : Hash := ⟨fun _ => hash, fun _ => hlen⟩
+        let rec? : Option FileRec :=
+          match openFile h head with
+          | .legacy _ => recWhole
+          | .verified _ => recBody
+          | .damaged => none
+        match construct home nf (fun m => capt.contains m) rec? with
+        | .ok b => showBuilt b
+        | .err _ => "err"
+        | .panic => "panic"
+        | .hang => "hang"
+      else "bad-load"
+    | _, _, _, _, _, _, _ => "bad-load"
   | _ => "bad-load"
 
 def handle (cmd : String) (args : List String) : Option String :=
   match cmd with
   | "dhcp.load" => some (run args)
+  | "dhcp.loadlegacy" => some (run args)
   | "dhcp.restart" => some (run args)
   | _ => none
 
